@@ -525,6 +525,19 @@ func (env *CEnv) evalCall(x *ast.CallExpr) (Value, types.Type) {
 				cfail("unknown type %s", tn)
 			}
 			return c.fromInterface(env.s, asInt(v), t), t
+		case "asiface":
+			// asiface(e, "pkg.Iface"): a ghost value (stored as a bare reference) viewed as a value of the interface type
+			v, _ := env.eval(x.Args[0])
+			lit, ok := x.Args[1].(*ast.BasicLit)
+			if !ok {
+				cfail("asiface needs a string literal")
+			}
+			tn, _ := strconv.Unquote(lit.Value)
+			t := c.eng.typeByName(tn)
+			if t == nil {
+				cfail("unknown type %s", tn)
+			}
+			return IntV{asInt(v)}, t
 		case "externtype":
 			// externtype(x): the dynamic type of x is declared outside the module (e.g. the error types of fmt / errors)
 			v, _ := env.eval(x.Args[0])
